@@ -134,6 +134,12 @@ def run(tier):
     for cfg in (["1d4"] if quick else ["1d4", "1d5", "2d4"]):
         r = core.model_check("DCH.tla", "mc/DCH_%s.cfg" % cfg, coverage=False, timeout=4 * 3600, heap="16g")
         rep.add_mc("DCH[%s]: strictly-below characterisation = supporting-facet hull, offsets, metamorphic laws on all point sets" % cfg, r)
+    r = core.model_check("DCHDistance.tla", "mc/DCHDistance.cfg", coverage=False, timeout=600)
+    rep.add_mc("DCHDistance: code-shaped distance rule has the sign of the true offset (all plane-distance patterns)", r)
+    r = core.model_check("DCHDistance.tla", "mc/DCHDistance_pinned.cfg", coverage=False, timeout=600)
+    if r["error"] != "invariant-violated":
+        raise core.Machinery("pinned distance rule (zero kept among the negative candidates) not rejected by the model")
+    rep.cov["parts"]["DCHDistance[pinned rule]"] = "violates %s as expected" % r.get("violated")
     rep.cov["exhaustive"] = True
     per = 14 if quick else 200
     with mp.Pool(core.NCPU) as pool:
